@@ -154,6 +154,16 @@ type FrontResult struct {
 	Blocks    []FrontBlock   `json:"blocks"`
 	Groups    [][]jComment   `json:"groups"`
 	MarkersSane bool         `json:"markersSane"`
+	Metas     []FuncMeta     `json:"metas"`
+}
+
+type FuncMeta struct {
+	Name     string `json:"name"`
+	ArgStyle bool   `json:"argStyle"`
+	Receiver string `json:"receiver"`
+	Reverse  bool   `json:"reverse"`
+	RetError bool   `json:"retError"`
+	SrcPtr   bool   `json:"srcPtr"`
 }
 
 // ---------------------------------------------------------------------------------------------
